@@ -10,4 +10,5 @@ def run(ctx):
         want=["-", "N", "JRWP", "JWP", "JRW", "RWP"], given=["-", "N", "JRWP", "JWP", "JRW", "RWP", "JRWPAS"],
         u1_quick={"want": ["-", "JRWP", "JWP"], "given": ["-", "JRW"], "kinds": ["NewGrp", "Sub", "Leave", "SetOther", "Pub"], "maxseq": 1, "nusers": 2, "sess_per_user": 2},
         u1_thorough={"want": ["-", "N", "JRWP", "JWP"], "given": ["-", "JRW", "JWP"], "kinds": ["NewGrp", "Sub", "Leave", "SetOther", "Pub"], "maxseq": 1, "nusers": 2, "sess_per_user": 2},
+        e2pub={"quick": 12, "thorough": 150},
         sim_quick={"num": 120, "depth": 16}, sim_thorough={"num": 1200, "depth": 22})
